@@ -77,6 +77,7 @@ def c15(tier):
 def c16(tier):
     wide = [mint_h('VHarnessMintQuoteC16Wide', 'mint quote: amount/limits full 64 bit; ledger of 2 signature rows + 1 spent row (total issued < 2^62)', must_reach=('mint-quote-accepted', 'mint-quote-refused'), timeout_s=1800)] if tier == 'thorough' else []
     return wide + [
+        mint_h('VHarnessMintInfoC16', 'info endpoint, balance and per-keyset totals over an arbitrary ledger of 1 signature row + 1 spent row (2 keysets, total issued < 2^62), asked before and after one more spend or issuance of an arbitrary amount; maximum balance arbitrary 64 bit', must_reach=('info-before', 'spent-more', 'issued-more')),
         mint_h('VHarnessMintQuoteC16', 'mint quote: amount/limits full 64 bit; ledger of 1 signature row + 1 spent row (total issued < 2^62)', must_reach=('mint-quote-accepted', 'mint-quote-refused')),
         mint_h('VHarnessMeltQuoteC16', 'melt quote: invoice < 2^50 msat, optional MPP, melt limit full 64 bit', must_reach=('melt-quote-accepted', 'melt-quote-refused')),
     ]
@@ -146,7 +147,8 @@ WALLET_ASSUME = COMMON_ASSUME + [
 ]
 def c18(tier):
     hs = [w_h('VHarnessSelect', 'offline selection kernel: 1..3 held proofs of 2^0..2^4 on one keyset, ppk in {0,100,250,500,1000,2000}, every amount in 1..balance', must_reach=('selected', 'selection-failed')),
-          w_h('VHarnessSend', 'Send end to end (selection, swap at the fake mint, change): 1..2 held proofs of 2^0..2^3 on active/inactive keysets, every ppk pair of the set, every amount, fees on/off', must_reach=('sent',), timeout_s=900)]
+          w_h('VHarnessSend', 'Send end to end (selection, swap at the fake mint, change): 1..2 held proofs of 2^0..2^3 on active/inactive keysets, every ppk pair of the set, every amount, fees on/off', must_reach=('sent',), timeout_s=900),
+          w_h('VHarnessSendMixed3', 'Send end to end: exactly 3 held proofs of 2^0..2^2, each on the active or the inactive keyset, ppk in {0,1000} per keyset, every amount, fees on/off', must_reach=('sent',), timeout_s=1500)]
     if tier == 'thorough':
         hs += [w_h('VHarnessSelectWide', 'selection kernel: 1..4 proofs of 2^0..2^5', must_reach=('selected',), timeout_s=3000),
                w_h('VHarnessSendWide', 'Send end to end: 1..3 proofs of 2^0..2^4', must_reach=('sent',), timeout_s=3000)]
